@@ -9,27 +9,28 @@ import (
 
 func comp(label string, names, texts []string) {
 	res := sgc.CompileTexts(names, texts, sgc.Opts{Features: sgc.AllFeatures{}})
-	d := res.Describe()
-	if res.OK() {
-		n := res.MS.Child("top").Child("l")
-		dv, has := n.Type().Default()
-		d = fmt.Sprintf("ok default=%q,%v", dv, has)
-	}
-	fmt.Println(label, "=>", d)
+	fmt.Println(label, "=>", res.Describe(), "parseErr:", res.ParseErr)
 }
 
 func TestX(t *testing.T) {
-	aa := `module aa { namespace "urn:aa"; prefix a; identity b; identity foo { base b; } typedef tid { type identityref { base b; } default %s; } container top { leaf l { type tid; } } }`
-	for _, d := range []string{"foo", "a:foo", "aa:foo"} {
-		comp("same module default "+d, []string{"aa"}, []string{fmt.Sprintf(aa, d)})
+	m := `module m { namespace "urn:m"; prefix m; grouping g { leaf a { type string; } container c; list l { key k; leaf k { type string; } } } container top { uses g { %s } } }`
+	for _, r := range []string{
+		`refine a { type string; }`, `refine a { key "x"; }`, `refine a { units "u"; }`, `refine a { status deprecated; }`, `refine a { when "1"; }`, `refine a { if-feature f; }`,
+		`refine a { leaf z { type string; } }`, `refine a { presence "x"; }`, `refine c { default "x"; }`, `refine c { mandatory true; }`, `refine a { min-elements 1; }`, `refine l { presence "p"; }`,
+		`refine a { description "d"; description "e"; }`, `refine a { default "x"; default "y"; }`, `refine a { config false; config true; }`, `refine a { mandatory true; mandatory false; }`,
+		`refine c { presence "a"; presence "b"; }`, `refine l { min-elements 1; min-elements 2; }`, `refine a { reference "r"; reference "s"; }`, `refine a { must "1"; must "2"; }`,
+	} {
+		comp(r, []string{"m"}, []string{fmt.Sprintf(m, r)})
 	}
-	aa2 := `module aa { namespace "urn:aa"; prefix a; identity b; identity foo { base b; } typedef tid { type identityref { base b; } default %s; } }`
-	zz := `module zz { namespace "urn:zz"; prefix z; import aa { prefix x; } container top { leaf l { type x:tid; } } }`
-	for _, d := range []string{"foo", "a:foo", "aa:foo"} {
-		comp("other module default "+d, []string{"aa", "zz"}, []string{fmt.Sprintf(aa2, d), zz})
-	}
-	zz2 := `module zz { namespace "urn:zz"; prefix z; import aa { prefix x; } container top { leaf l { type x:tid; default %s; } } }`
-	for _, d := range []string{"x:foo", "aa:foo"} {
-		comp("leaf default "+d, []string{"aa", "zz"}, []string{fmt.Sprintf(aa2, "foo"), fmt.Sprintf(zz2, d)})
+	b := `module b { namespace "urn:b"; prefix b; container top { leaf a { type string; } leaf-list ll { type string; } list l { key k; leaf k { type string; } leaf v { type string; } } } }`
+	d := `module d { namespace "urn:d"; prefix d; import b { prefix b; } deviation /b:top/b:%s { %s } }`
+	for _, r := range [][2]string{
+		{"a", `deviate not-supported { type string; }`}, {"a", `deviate not-supported { description "x"; }`}, {"a", `deviate add { description "x"; }`}, {"a", `deviate add { type string; }`},
+		{"a", `deviate add { status deprecated; }`}, {"a", `deviate delete { type string; }`}, {"a", `deviate delete { config false; }`}, {"a", `deviate delete { mandatory true; }`},
+		{"a", `deviate replace { must "1"; }`}, {"l", `deviate replace { unique "v"; }`}, {"a", `deviate replace { description "x"; }`}, {"a", `deviate add { leaf z { type string; } }`},
+		{"a", `deviate add { units "u"; units "v"; }`}, {"a", `deviate add { default "u"; default "v"; }`}, {"a", `deviate replace { type string; type int8; }`}, {"ll", `deviate add { min-elements 1; min-elements 2; }`},
+		{"a", `deviate delete { units "u"; units "v"; }`}, {"a", `deviate add { config false; config false; }`},
+	} {
+		comp(r[0]+": "+r[1], []string{"b", "d"}, []string{b, fmt.Sprintf(d, r[0], r[1])})
 	}
 }
